@@ -59,3 +59,80 @@ package client
 //@   prop C15
 //@   requires parts: incoming.Payload != nil
 //@   ensures drained: !result ==> pos(payloadReader) == avail(payloadReader)
+
+// ---- C09: stream ids (sequential mechanism of the in-flight table) ------------------------------------------------
+// The pool of free ids is a buffered channel; govc models it sequentially as a bounded multiset (chancount(ch, x) =
+// how many times x is queued, chanlen, chancap, chanclosed). poolInv is the representation invariant that every
+// operation of the handler assumes and re-establishes while the handler is open:
+//   the lock and the table exist, the limit fits a stream id;
+//   the pool exists, is open, has capacity N, and holds each id at most once, only ids 1..N, and no id that a request
+//   with an automatically assigned id is using;
+//   every table entry is a request.
+//@ spec poolInv(h *inFlightRequestsHandler) bool = h.inFlightLock != nil && !isnil(h.inFlight) && h.ctx != nil && 0 <= h.maxInFlight && h.maxInFlight <= 32767 && (h.closed == 0 || h.closed == 1) && (h.closed == 0 ==> h.streamIds != nil && !chanclosed(h.streamIds) && chancap(h.streamIds) == h.maxInFlight && (forall id int16 :: 0 <= chancount(h.streamIds, id) && chancount(h.streamIds, id) <= 1 && (has(h.inFlight, id) && h.inFlight[id].managedStreamId ==> 1 <= id && int(id) <= h.maxInFlight) && (chanhas(h.streamIds, id) ==> 1 <= id && int(id) <= h.maxInFlight && !(has(h.inFlight, id) && h.inFlight[id].managedStreamId)))) && (forall id int16 :: has(h.inFlight, id) ==> h.inFlight[id] != nil)
+
+// what the handler relies on from the per-request object (goroutines, timers and the frame channel of a request are
+// outside the sequential model: ASSUMED)
+//@ func newInFlightRequest
+//@   prop C09
+//@   nilable ctx
+//@   assumes-assigns nothing
+//@   assumes made: result != nil && fresh(result) && result.streamId == streamId && result.managedStreamId == managedStreamId
+//@ func (*inFlightRequest).startTimeout
+//@   prop C09
+//@   assumes-assigns r.timeoutCtx, r.timeoutCancel
+//@ func (*inFlightRequest).onFrameReceived
+//@   prop C09
+//@   assumes-assigns r._incoming, r.err, r.done, r.timeoutCtx, r.timeoutCancel
+//@ func (*inFlightRequest).close
+//@   prop C09
+//@   nilable err
+//@   assumes-assigns r._incoming, r.err, r.done
+
+// whether a frame completes its response is a function of the frame (continuous paging: the last page); its body is
+// not re-examined here
+//@ func isLastFrame
+//@   prop C09
+//@   pure
+
+// the constructor fills the pool with exactly 1..N
+//@ func newInFlightRequestsHandler
+//@   prop C09
+//@   requires limit: 0 <= maxInFlight && maxInFlight <= 32767
+//@   invariant #0 filled: 1 <= i && i <= maxInFlight + 1 && !chanclosed(handler.streamIds) && chancap(handler.streamIds) == maxInFlight && chanlen(handler.streamIds) == i - 1 && (forall id int16 :: chancount(handler.streamIds, id) == ite(1 <= id && int(id) < i, int(1), int(0)))
+//@   ensures inv: result != nil && poolInv(result) && result.closed == 0 && result.maxInFlight == maxInFlight
+//@   ensures pool: chanlen(result.streamIds) == maxInFlight && (forall id int16 :: chancount(result.streamIds, id) == ite(1 <= id && int(id) <= maxInFlight, int(1), int(0)))
+//@   ensures empty: forall id int16 :: !has(result.inFlight, id)
+
+// sending: an accepted request gets an id in 1..N (automatic assignment) or keeps its own, in either case one that no
+// unanswered request uses; exhaustion and duplicates are refused; a refused request changes neither table nor pool.
+//@ func (*inFlightRequestsHandler).onOutgoingFrameEnqueued
+//@   prop C09
+//@   requires inv: poolInv(h)
+//@   requires frame: f.Header != nil
+//@   let sid0 = f.Header.StreamId
+//@   let closed0 = h.closed
+//@   ensures inv: poolInv(h)
+//@   ensures range: result1 == nil && sid0 == 0 ==> 1 <= f.Header.StreamId && int(f.Header.StreamId) <= h.maxInFlight
+//@   ensures explicit: result1 == nil && sid0 != 0 ==> f.Header.StreamId == sid0
+//@   ensures unique: forall id int16 :: result1 == nil && id == f.Header.StreamId ==> !old(has(h.inFlight, id)) && has(h.inFlight, id) && h.inFlight[id].managedStreamId == (sid0 == 0)
+//@   ensures others: forall id int16 :: result1 == nil && id != f.Header.StreamId ==> has(h.inFlight, id) == old(has(h.inFlight, id)) && chancount(h.streamIds, id) == old(chancount(h.streamIds, id))
+//@   ensures taken: result1 == nil && sid0 == 0 ==> !chanhas(h.streamIds, f.Header.StreamId)
+//@   ensures exhausted: sid0 == 0 && closed0 == 0 && old(chanlen(h.streamIds)) == 0 ==> result1 != nil
+//@   ensures duplicate: sid0 != 0 && old(has(h.inFlight, sid0)) ==> result1 != nil
+//@   ensures refused: forall id int16 :: result1 != nil && closed0 == 0 ==> has(h.inFlight, id) == old(has(h.inFlight, id)) && chancount(h.streamIds, id) == old(chancount(h.streamIds, id))
+
+// receiving: the final frame of a response frees the table entry and, for an automatically assigned id, returns the id
+// to the pool; other frames and frames for unknown ids leave table and pool alone.
+//@ func (*inFlightRequestsHandler).onIncomingFrameReceived
+//@   prop C09
+//@   requires inv: poolInv(h)
+//@   requires frame: f.Header != nil && f.Body != nil && f.Body.Message != nil
+//@   let sid = f.Header.StreamId
+//@   let closed0 = h.closed
+//@   ensures inv: poolInv(h)
+//@   ensures unknown: closed0 == 0 && !old(has(h.inFlight, sid)) ==> result != nil
+//@   ensures freed: closed0 == 0 && old(has(h.inFlight, sid)) && isLastFrame(f) ==> !has(h.inFlight, sid)
+//@   ensures recycled: closed0 == 0 && old(has(h.inFlight, sid)) && isLastFrame(f) && old(h.inFlight[sid].managedStreamId) && result == nil ==> chanhas(h.streamIds, sid)
+//@   ensures kept: closed0 == 0 && old(has(h.inFlight, sid)) && !isLastFrame(f) ==> has(h.inFlight, sid) && chancount(h.streamIds, sid) == old(chancount(h.streamIds, sid))
+//@   ensures others: forall id int16 :: closed0 == 0 && id != sid ==> has(h.inFlight, id) == old(has(h.inFlight, id)) && chancount(h.streamIds, id) == old(chancount(h.streamIds, id))
+//@   ensures unknownkeeps: closed0 == 0 && !old(has(h.inFlight, sid)) ==> chancount(h.streamIds, sid) == old(chancount(h.streamIds, sid)) && !has(h.inFlight, sid)
